@@ -252,3 +252,10 @@ package req
 //@   ghost e = result at call:SetOption#1
 //@   before call:SetOption#1 assert recv == s.defCtx && arg0 == option && arg1 == value
 //@   ensures result == e
+
+// ---- round 13 (C03 "a new Send abandons the previous request, whose pending Recv fails with a
+// cancellation error"; C11 "every call returns a result its sequential contract allows"): once a
+// request has been cancelled nobody is registered as waiting for it any more, so a Recv for the
+// request that replaces it is admitted ----
+//@ func (*context).cancel
+//@   ensures !c.receiveWait && c.reqID == 0
